@@ -24,7 +24,16 @@ Theorem C09_never_pending_once_drained :
   forall h, NoDup (arrivals h) ->
     forall a b, dtrace h = a ++ DO EPending :: b ->
       ~ (a_goaway (app_after a) = true /\ a_objs (app_after a) = [] /\ a_wait (app_after a) = []).
-Proof. intros h Hn. exact (proj2 (model_drain_safe_live h Hn)). Qed.
+Proof. intros h Hn. exact (proj1 (proj2 (model_drain_safe_live h Hn))). Qed.
+
+(* T3 errors only when justified: accept() reports connection error c only if the inputs so far justify it - a
+   QPACK-undecodable or wrong-first-frame request that the application tried to resolve (QPACK_DECOMPRESSION_FAILED,
+   H3_FRAME_UNEXPECTED) or a peer GOAWAY larger than the previous one (H3_ID_ERROR). In particular a repeated or
+   smaller GOAWAY, a FIN / RESET before HEADERS or a malformed request never turn "None" into an error *)
+Theorem C09_errors_only_when_justified :
+  forall h, NoDup (arrivals h) ->
+    forall a b c, dtrace h = a ++ DO (EErr c) :: b -> In c (a_excuse (app_after a)).
+Proof. intros h Hn. exact (proj2 (proj2 (model_drain_safe_live h Hn))). Qed.
 
 (* T2 in positive form: after ANY history that has reported no connection error, if the peer's GOAWAY has arrived,
    every request handed out has ended and nothing is waiting, then running the accept task makes accept() answer
@@ -43,10 +52,10 @@ Theorem C09_monitor_accepts_model :
   forall h, NoDup (arrivals h) -> drain_okb (dtrace h) = true.
 Proof. exact model_drains. Qed.
 Theorem C09_monitor_sound :
-  forall t, drain_okb t = true -> drain_safe t /\ drain_live t.
+  forall t, drain_okb t = true -> drain_safe t /\ drain_live t /\ errors_justified t.
 Proof. exact drain_okb_sound. Qed.
 Theorem C09_monitor_complete :
-  forall t, drain_safe t -> drain_live t -> drain_okb t = true.
+  forall t, drain_safe t -> drain_live t -> errors_justified t -> drain_okb t = true.
 Proof. exact drain_okb_complete. Qed.
 
 (* non-vacuity: the four endings that used to leak the request, a split request, a request still alive *)
@@ -73,8 +82,15 @@ Example C09_qpack_failure_inhabited :
      DI DPoll; DO (EErr 512)].
 Proof. vm_compute. reflexivity. Qed.
 
+Example C09_repeated_goaway_inhabited :
+  dtrace [DArrive 0; DPoll; DPeerGoaway 0; DPoll; DPeerGoaway 0; DDropResolver 0; DPoll] =
+    [DI (DArrive 0); DI DPoll; DO (EShown 0); DO EPending; DI (DPeerGoaway 0); DI DPoll; DO EPending;
+     DI (DPeerGoaway 0); DI (DDropResolver 0); DI DPoll; DO (EWire 4); DO ENone].
+Proof. vm_compute. reflexivity. Qed.
+
 Print Assumptions C09_none_only_when_all_ended.
 Print Assumptions C09_never_pending_once_drained.
+Print Assumptions C09_errors_only_when_justified.
 Print Assumptions C09_drained_poll_answers_none.
 Print Assumptions C09_monitor_accepts_model.
 Print Assumptions C09_monitor_sound.
